@@ -201,12 +201,21 @@ class Ed25519Key(PKey):
         return m
 
     def verify_ssh_sig(self, data, msg):
-        if msg.get_text() != self.name:
+        try:
+            sig_algorithm = msg.get_text()
+        except UnicodeDecodeError:
+            return False
+        if sig_algorithm != self.name:
             return False
 
+        if self.can_sign():
+            v = self._signing_key.verify_key
+        else:
+            v = self._verifying_key
         try:
-            self._verifying_key.verify(data, msg.get_binary())
-        except nacl.exceptions.BadSignatureError:
+            # NOTE: raises ValueError for a signature of the wrong length
+            v.verify(data, msg.get_binary())
+        except (nacl.exceptions.BadSignatureError, ValueError):
             return False
         else:
             return True
